@@ -292,12 +292,20 @@ class Unsupported(Exception):
     """The construct is outside the subset the generator handles: verdict UNDECIDED."""
 
 
+class Env(dict):
+    """local names of one path; a contract that names a local the code does not define here is a shape
+    mismatch (verdict UNDECIDED), not a crash"""
+
+    def __missing__(self, key):
+        raise Unsupported('shape: the contract refers to local %r which the code does not define here' % (key,))
+
+
 class State:
     """Symbolic state of one path."""
 
     def __init__(self):
         self.heap = {}      # field name -> array term
-        self.env = {}       # local name -> V
+        self.env = Env()    # local name -> V
         self.pc = []        # assumptions (z3 Bool), in order
         self.g = {}         # ghost scalars: name -> z3 term
         self.trace = []     # human readable path description
@@ -305,7 +313,7 @@ class State:
     def copy(self):
         s = State()
         s.heap = dict(self.heap)
-        s.env = dict(self.env)
+        s.env = Env(self.env)
         s.pc = list(self.pc)
         s.g = dict(self.g)
         s.trace = list(self.trace)
